@@ -3,7 +3,9 @@ pub mod cells;
 pub mod frame;
 pub mod proj;
 pub mod graph;
+pub mod hilbert;
 pub mod lookup;
+pub mod partition;
 pub mod sets;
 
 use crate::ev::{Report, Viol};
@@ -19,11 +21,13 @@ pub fn run(prop: &str, tier: &str) -> Option<Report> {
         "C10" => sets::run(10, tier),
         "C01" => lookup::run_c01(tier),
         "C02" => lookup::run_c02(tier),
+        "C03" => partition::run(tier),
         "C04" => cells::run_c04(tier),
         "C11" => cells::run_c11(tier),
         "C12" => cells::run_c12(tier),
         "C15" => proj::run_c15(tier),
         "C16" => proj::run_c16(tier),
+        "C17" => hilbert::run(tier),
         "C18" => frame::run_c18(tier),
         "C19" => frame::run_c19(tier),
         _ => return None,
@@ -38,9 +42,11 @@ pub fn replay(prop: &str, case: &Value) -> Option<Vec<Viol>> {
         "C09" => sets::replay(9, case),
         "C10" => sets::replay(10, case),
         "C01" | "C02" => lookup::replay(prop, case),
+        "C03" => partition::replay(case),
         "C04" | "C11" | "C12" => cells::replay(prop, case),
         "C15" => proj::replay_c15(case),
         "C16" => proj::replay_c16(case),
+        "C17" => hilbert::replay(case),
         "C18" => frame::replay_c18(case),
         _ => return None,
     })
